@@ -2,6 +2,7 @@ package worlds
 
 import (
 	"encoding/hex"
+	"encoding/json"
 	"fmt"
 	"io"
 
@@ -866,7 +867,18 @@ func (w *c01World) apiBuilt(c *kernel.RunCtx, m *models.RTx, extended bool) {
 	c.Begin("api")
 	style := c.Choose(2)
 	nilPrev := c.Bool(1, 2)
+	brokenFirst := c.Bool(1, 6)
 	c.End()
+	if brokenFirst {
+		// state left behind by a failed call: ask for the id / bytes of a transaction that cannot be serialised
+		// (an output without a locking script panics), recover, and carry on with well-formed ones
+		bad := bt.NewTx()
+		bad.AddOutput(&bt.Output{Satoshis: 1, LockingScript: scriptPtr([]byte{0x51})})
+		bad.AddOutput(&bt.Output{Satoshis: 2})
+		_ = catch(func() { _ = bad.TxID() })
+		_ = catch(func() { _ = bad.ExtendedBytes() })
+		c.Count("probe.failed_call_before_valid_ones", 1)
+	}
 	tx := bt.NewTx()
 	tx.Version, tx.LockTime = m.Version, m.Lock
 	for i := range m.Ins {
@@ -932,6 +944,56 @@ func (w *c01World) apiBuilt(c *kernel.RunCtx, m *models.RTx, extended bool) {
 	std, _ := m.Encode(false, nil)
 	if s != hex.EncodeToString(std) {
 		c.Fail("reserialise", "Tx.String", "String() is not the hex of the standard serialisation")
+		return
+	}
+	// getter / serialiser coherence after the outpoint of an already-serialised input is changed: whatever the
+	// getters report is what must be serialised (routes: PreviousTxIDAdd with a new id, refilling the same *Input
+	// from its JSON form, editing the bytes PreviousTxID() hands out)
+	if len(tx.Inputs) == 0 {
+		return
+	}
+	in := tx.Inputs[0]
+	route := len(m.Ins[0].Script) % 3
+	switch route {
+	case 0:
+		nid := make([]byte, 32)
+		nid[3], nid[30] = 0x77, byte(len(m.Outs))
+		if err := in.PreviousTxIDAdd(nid); err != nil {
+			return
+		}
+	case 1:
+		js := fmt.Sprintf(`{"unlockingScript":"%x","txid":"%064x","vout":%d,"sequence":%d}`, m.Ins[0].Script, 0x1234567+len(m.Outs), m.Ins[0].Vout, m.Ins[0].Seq)
+		if err := json.Unmarshal([]byte(js), in); err != nil {
+			return
+		}
+	default:
+		id := in.PreviousTxID()
+		for i := range id {
+			id[i] ^= 0x3c
+		}
+	}
+	c.Count("probe.outpoint_changed_after_serialisation", 1)
+	now := &models.RTx{Version: tx.Version, Lock: tx.LockTime}
+	for _, ti := range tx.Inputs {
+		var ri models.RIn
+		id := ti.PreviousTxID()
+		for j := 0; j < 32 && j < len(id); j++ {
+			ri.TxIDWire[j] = id[31-j]
+		}
+		ri.Vout, ri.Seq, ri.Script = ti.PreviousTxOutIndex, ti.SequenceNumber, scriptBytes(ti.UnlockingScript)
+		now.Ins = append(now.Ins, ri)
+	}
+	for _, o := range tx.Outputs {
+		now.Outs = append(now.Outs, models.ROut{Sats: o.Satoshis, Script: scriptBytes(o.LockingScript)})
+	}
+	want, _ := now.Encode(false, nil)
+	var got []byte
+	if p := catch(func() { got = tx.Bytes() }); p != "" || !sameBytes(got, want) {
+		c.Fail("reserialise", "Tx.Bytes", "after input 0's outpoint was changed (route %d) Bytes() does not serialise what the getters report (panic=%q): %s", route, p, firstDiff(got, want))
+		return
+	}
+	if id := tx.TxID(); id != hex.EncodeToString(now.TxIDDisplay()) {
+		c.Fail("txid", "Tx.TxID", "after input 0's outpoint was changed (route %d) TxID() is %s, want %x", route, id, now.TxIDDisplay())
 	}
 }
 
